@@ -289,7 +289,7 @@ func opConc() error {
 					if st[i] != "O" {
 						v.Sub(v, gw)
 					}
-					cum[i] = int(new(big.Int).Div(v, WorkUnit).Int64())
+					cum[i] = int(new(big.Int).Div(v, CurUnit).Int64())
 				} else {
 					st[i], ht[i], cum[i] = "-", -9, -9
 				}
